@@ -477,4 +477,26 @@ theorem extendedDirty_correct (ctxSets : List (Name × CSet)) (hctx : ∀ e ∈ 
     exact ⟨trees, ps, ds, rs, rfl, by simp [Api.extendedDirty, hp, hev], hlen, fun i hi hi' p hpp => hall i hi hi' p hpp⟩
 
 end
+
+/-! ### non-vacuity -/
+
+/-- a two-state, one-colour toggle with the proposition `a` true in state 1 -/
+def Gt : Graph :=
+  { nS := 2, nC := 1, nV := 1, k := 0, valid := fun _ => true
+    step := fun _ _ s => some (1 - s)
+    label := fun n => if n = ['a'] then some (fun s => s == 1) else none }
+
+theorem Gt_wf : GraphWF Gt := ⟨fun c j s t h hs => by simp [Gt] at h hs ⊢; omega⟩
+theorem Gt_async : C12.GraphAsync Gt := ⟨fun c j s t h => by simp [Gt] at h; omega⟩
+
+/-- non-vacuity of `formulaeDirty_correct`: its premises hold for the toggle and the ASCII classes, and the outcome on
+the text `EF a` is a result (both states satisfy it) -/
+example : ∃ rs, Api.formulaeDirty (Env.pure Gt) C06.asciiClass (Env.pure Gt).G.unit0 [['E','F',' ','a']] = .ok rs := by
+  rcases formulaeDirty_correct C06.asciiClass_ok (envOK_pure Gt) Gt_wf Gt_async [['E','F',' ','a']] with ⟨e, he, _⟩ | ⟨trees, ps, ds, rs, _, h, _⟩
+  · exfalso
+    have hp : Api.parseAll (Env.pure Gt) C06.asciiClass false [] [['E','F',' ','a']]
+        = .ok ([.un .ef (.atom (.prop ['a']))], [], []) := by rfl
+    rw [hp] at he
+    cases he
+  · exact ⟨rs, h⟩
 end Hctl
